@@ -54,6 +54,7 @@ func enrollIdent(r *kernel.Run, w *World, id *Ident) *types.NodeCredentials {
 // C01: credentials are issued only for authorized enrollment requests.
 func propC01(r *kernel.Run) {
 	tp := r.Tape
+	r.OnEnd(func() { delete(c01Saved, r) })
 	backend := backends[tp.Draw(3)]
 	sw := tp.Draw(2) == 1
 	w := NewWorld(r, "server", backend, sw, false)
@@ -165,8 +166,17 @@ func propC01(r *kernel.Run) {
 	}
 }
 
+// c01Saved: the evaluation closures of the requests made so far in a run (a request is replayed by calling its closure again)
+var c01Saved = map[*kernel.Run][]func(bool){}
+
 func c01Request(r *kernel.Run, w *World, tp *kernel.Tape, ids []*Ident, inter, other *Ident, interCreds *types.NodeCredentials,
 	serverRW, foreignRW wrapping.Wrapper, recs map[string]*recModel, toks *[]*tokModel, maxLife time.Duration, privOf map[string]*ecdh.PrivateKey, hist *[]string) {
+	if saved := c01Saved[r]; len(saved) > 0 && tp.Draw(8) == 0 {
+		// the very same request (same bytes) arrives again, possibly after the operator changed something
+		r.Count("ops.replayed_request", 1)
+		saved[tp.Draw(len(saved))](true)
+		return
+	}
 	now := time.Now()
 	// certificate key: one of the identities (known or not depends on history) or a brand-new key
 	var cert *Ident
@@ -266,7 +276,10 @@ func c01Request(r *kernel.Run, w *World, tp *kernel.Tape, ids []*Ident, inter, o
 		sp.Rewrapped, sp.RewrapKey = tp.Bytes(tp.Range(1, 60)), inter.KeyId
 		if tp.Draw(3) == 0 {
 			// a syntactically valid blob whose ciphertext is very short
-			bi := &wrapping.BlobInfo{Ciphertext: tp.Bytes(tp.Range(0, 14)), KeyInfo: &wrapping.KeyInfo{KeyId: inter.KeyId}}
+			bi := &wrapping.BlobInfo{Ciphertext: tp.Bytes(tp.Range(0, 40)), KeyInfo: &wrapping.KeyInfo{KeyId: inter.KeyId}}
+			if tp.Draw(2) == 0 {
+				bi.KeyInfo = nil // the optional part of the envelope left out
+			}
 			sp.Rewrapped, _ = proto.Marshal(bi)
 		}
 	}
@@ -295,102 +308,112 @@ func c01Request(r *kernel.Run, w *World, tp *kernel.Tape, ids []*Ident, inter, o
 	}
 	req, _ := BuildFetch(sp)
 
-	// ---- reference model: may this request be answered with credentials?
-	rec := recs[cert.KeyId]
-	condA := len(sp.Wrapped) == 0 && len(sp.Rewrapped) == 0 && len(nonce) == nodeenrollment.NonceSize &&
-		rec != nil && bytes.Equal(rec.nonce, nonce) && bytes.Equal(rec.encPub, enc)
-	tokLive := tok != nil && !tok.consumed && !now.After(tok.created.Add(maxLife))
-	condB := len(sp.Wrapped) == 0 && len(sp.Rewrapped) == 0 && nonceClass == "token" && tokLive && rec == nil
-	condC := false
-	switch wrapClass {
-	case "server":
-		condC = w.RW != nil
-	case "rewrapped":
-		condC = recs[inter.KeyId] != nil
-	}
-	if condC && w.Backend == "storeonce" && rec != nil {
-		// a store-once back end keeps the existing record; the response is built from it, so it must match the request
-		condC = bytes.Equal(rec.nonce, nonce) && bytes.Equal(rec.encPub, enc)
-	}
-	may := condA || condB || condC
-	clean := (condA && wrapClass == "none") || (condB && wrapClass == "none" && !now.Equal(tok.created.Add(maxLife))) || condC
-
-	before := countNodeInfos(w)
-	var resp *types.FetchNodeCredentialsResponse
-	var err error
-	if p, msg, site := kernel.Guard(func() { resp, err = registration.FetchNodeCredentials(w.Ctx, w.Storage, req, w.Opts()...) }); p {
-		r.Violate("no-panic", "fetch-panic/"+site, "FetchNodeCredentials panicked (%s/%s/%s): %s", nonceClass, encClass, wrapClass, msg)
-	}
-	after := countNodeInfos(w)
-	issued := err == nil && resp != nil && len(resp.EncryptedNodeCredentials) > 0
-	if issued {
-		r.Count("probe.issued", 1)
-	}
-	known := "unknown-key"
-	if rec != nil {
-		known = "known-key"
-	}
-	class := fmt.Sprintf("%s/nonce-%s/enc-%s/wrap-%s", known, nonceClass, encClass, wrapClass)
-	if fillClass != "none" {
-		class += "/filled-" + fillClass
-	}
-	desc := fmt.Sprintf("%s cert=%s regWrapper=%v tokLive=%v backend=%s -> issued=%v err=%s", class, cert.Name, w.RW != nil, tokLive, w.Backend, issued, shortErr(err))
-	*hist = append(*hist, "fetch "+desc)
-	r.Count("ops.fetch", 1)
-	r.Count("cases", 1)
-	if tok != nil && tokLive && len(sp.Wrapped) == 0 && len(sp.Rewrapped) == 0 {
-		tok.consumed = true // any attempt that reaches the token consumes it
-	}
-	if issued && !may {
-		r.Violate("issue-only-authorized", "issued-unauthorized/"+c01Why(nonceClass, encClass, wrapClass, rec != nil), "credentials issued although none of (a),(b),(c) holds: %s", desc)
-	}
-	if !issued {
-		if err == nil && resp == nil {
-			r.Violate("refusal-shape", "nil-response-nil-error", "%s", desc)
+	// everything from here on is evaluated again whenever the same request is presented another time (replay): the
+	// model is a function of the current state, so an answer that was right before may be wrong now
+	eval := func(replayed bool) {
+		now := time.Now()
+		// ---- reference model: may this request be answered with credentials?
+		rec := recs[cert.KeyId]
+		condA := len(sp.Wrapped) == 0 && len(sp.Rewrapped) == 0 && len(nonce) == nodeenrollment.NonceSize &&
+			rec != nil && bytes.Equal(rec.nonce, nonce) && bytes.Equal(rec.encPub, enc)
+		tokLive := tok != nil && !tok.consumed && !now.After(tok.created.Add(maxLife))
+		condB := len(sp.Wrapped) == 0 && len(sp.Rewrapped) == 0 && nonceClass == "token" && tokLive && rec == nil
+		condC := false
+		switch wrapClass {
+		case "server":
+			condC = w.RW != nil
+		case "rewrapped":
+			condC = recs[inter.KeyId] != nil
 		}
-		if !sameSnapshot(before, after) {
-			r.Violate("no-new-record", "record-changed-on-refusal", "a refused request changed the node records (%d -> %d): %s", len(before), len(after), desc)
-		}
-		if clean {
-			// liveness of authorized requests belongs to C04; here it is only a probe that the workload reaches issuing states
-			r.Count("probe.authorized_but_refused", 1)
-		}
-	} else {
-		// the response opens with exactly the private key matching the request's encryption key
-		opened := 0
-		for pub, priv := range privOf {
-			ok := tryOpen(w, resp, priv, cert.Pkix)
-			if ok {
-				opened++
-				if pub != string(enc) {
-					r.Violate("bound-to-requester", "response-opens-with-other-key", "response can be opened with a key other than the request's: %s", desc)
-				}
-			} else if pub == string(enc) {
-				r.Violate("bound-to-requester", "response-not-openable-by-requester", "%s", desc)
-			}
-		}
-		_ = opened
-		// the record behind an issued response is the one of the request's certificate key; nobody else's record moved
-		if after[cert.KeyId] == nil {
-			r.Violate("issue-only-authorized", "issued-without-record-of-request-key", "credentials issued but no node record is stored under the request key's ID: %s", desc)
-		}
-		for id, b := range before {
-			if id != cert.KeyId && !bytes.Equal(after[id], b) {
-				r.Violate("issue-only-authorized", "issue-changed-other-record", "answering a request of key %s changed or removed the record %s: %s", cert.KeyId, id, desc)
-			}
-		}
-		for id := range after {
-			if id != cert.KeyId && before[id] == nil {
-				r.Violate("issue-only-authorized", "issue-created-foreign-record", "answering a request of key %s created a record under %s: %s", cert.KeyId, id, desc)
-			}
-		}
-		recs[cert.KeyId] = &recModel{nonce, enc}
 		if condC && w.Backend == "storeonce" && rec != nil {
-			recs[cert.KeyId] = rec
+			// a store-once back end keeps the existing record; the response is built from it, so it must match the request
+			condC = bytes.Equal(rec.nonce, nonce) && bytes.Equal(rec.encPub, enc)
 		}
+		may := condA || condB || condC
+		clean := (condA && wrapClass == "none") || (condB && wrapClass == "none" && !now.Equal(tok.created.Add(maxLife))) || condC
+
+		before := countNodeInfos(w)
+		var resp *types.FetchNodeCredentialsResponse
+		var err error
+		if p, msg, site := kernel.Guard(func() { resp, err = registration.FetchNodeCredentials(w.Ctx, w.Storage, req, w.Opts()...) }); p {
+			r.Violate("no-panic", "fetch-panic/"+site, "FetchNodeCredentials panicked (%s/%s/%s): %s", nonceClass, encClass, wrapClass, msg)
+		}
+		after := countNodeInfos(w)
+		issued := err == nil && resp != nil && len(resp.EncryptedNodeCredentials) > 0
+		if issued {
+			r.Count("probe.issued", 1)
+		}
+		known := "unknown-key"
+		if rec != nil {
+			known = "known-key"
+		}
+		class := fmt.Sprintf("%s/nonce-%s/enc-%s/wrap-%s", known, nonceClass, encClass, wrapClass)
+		if fillClass != "none" {
+			class += "/filled-" + fillClass
+		}
+		if replayed {
+			class += "/replayed"
+		}
+		desc := fmt.Sprintf("%s cert=%s regWrapper=%v tokLive=%v backend=%s -> issued=%v err=%s", class, cert.Name, w.RW != nil, tokLive, w.Backend, issued, shortErr(err))
+		*hist = append(*hist, "fetch "+desc)
+		r.Count("ops.fetch", 1)
+		r.Count("cases", 1)
+		if tok != nil && tokLive && len(sp.Wrapped) == 0 && len(sp.Rewrapped) == 0 {
+			tok.consumed = true // any attempt that reaches the token consumes it
+		}
+		if issued && !may {
+			r.Violate("issue-only-authorized", "issued-unauthorized/"+c01Why(nonceClass, encClass, wrapClass, rec != nil), "credentials issued although none of (a),(b),(c) holds: %s", desc)
+		}
+		if !issued {
+			if err == nil && resp == nil {
+				r.Violate("refusal-shape", "nil-response-nil-error", "%s", desc)
+			}
+			if !sameSnapshot(before, after) {
+				r.Violate("no-new-record", "record-changed-on-refusal", "a refused request changed the node records (%d -> %d): %s", len(before), len(after), desc)
+			}
+			if clean {
+				// liveness of authorized requests belongs to C04; here it is only a probe that the workload reaches issuing states
+				r.Count("probe.authorized_but_refused", 1)
+			}
+		} else {
+			// the response opens with exactly the private key matching the request's encryption key
+			opened := 0
+			for pub, priv := range privOf {
+				ok := tryOpen(w, resp, priv, cert.Pkix)
+				if ok {
+					opened++
+					if pub != string(enc) {
+						r.Violate("bound-to-requester", "response-opens-with-other-key", "response can be opened with a key other than the request's: %s", desc)
+					}
+				} else if pub == string(enc) {
+					r.Violate("bound-to-requester", "response-not-openable-by-requester", "%s", desc)
+				}
+			}
+			_ = opened
+			// the record behind an issued response is the one of the request's certificate key; nobody else's record moved
+			if after[cert.KeyId] == nil {
+				r.Violate("issue-only-authorized", "issued-without-record-of-request-key", "credentials issued but no node record is stored under the request key's ID: %s", desc)
+			}
+			for id, b := range before {
+				if id != cert.KeyId && !bytes.Equal(after[id], b) {
+					r.Violate("issue-only-authorized", "issue-changed-other-record", "answering a request of key %s changed or removed the record %s: %s", cert.KeyId, id, desc)
+				}
+			}
+			for id := range after {
+				if id != cert.KeyId && before[id] == nil {
+					r.Violate("issue-only-authorized", "issue-created-foreign-record", "answering a request of key %s created a record under %s: %s", cert.KeyId, id, desc)
+				}
+			}
+			recs[cert.KeyId] = &recModel{nonce, enc}
+			if condC && w.Backend == "storeonce" && rec != nil {
+				recs[cert.KeyId] = rec
+			}
+		}
+		r.FP(class, may, issued, w.RW != nil, tokLive)
+		r.StateFP(len(recs), len(*toks), w.RW != nil, class, issued)
 	}
-	r.FP(class, may, issued, w.RW != nil, tokLive)
-	r.StateFP(len(recs), len(*toks), w.RW != nil, class, issued)
+	eval(false)
+	c01Saved[r] = append(c01Saved[r], eval)
 }
 
 func c01Why(nonceClass, encClass, wrapClass string, known bool) string {
